@@ -51,7 +51,7 @@ def bounds(tier):
 
 
 def jobs(tier, seed):
-    out = []
+    out = [{'listhistory': True, 'oracle': orc, 'seed': seed} for orc in ORACLES]
     its = ITERS if tier == 'thorough' else [1, 2, 3, 5, 20, 60]
     for sname in STRUCTS:
         for orc in ORACLES:
@@ -61,7 +61,7 @@ def jobs(tier, seed):
             if sname in DISJOINT or tier == 'thorough':
                 out.append({'s': sname, 'oracle': orc, 'noise': 'low', 'iters': [600], 'totals': ['given'], 'seed': seed})
             # large total relative to the noise: many step halvings/restarts are needed before the first accepted step
-            if sname in ('single', 'chain', 'disjoint-pair', 'nested', 'triples-single') or tier == 'thorough':
+            if sname in ('single', 'chain', 'disjoint-pair', 'nested', 'triples-single', 'triples') or tier == 'thorough':
                 out.append({'s': sname, 'oracle': orc, 'noise': 'low', 'iters': [20, 26, 60] if tier == 'quick' else [20, 23, 26, 60, 200],
                             'totals': ['given'], 'seed': seed, 'T': 1e6})
     return out
@@ -112,6 +112,16 @@ def run_one(sname, orc, noise, iters, totmode, seed, T0=40.0):
         pf = float(model.primal_feasibility(model.marginals)) if hasattr(model, 'marginals') else 0.0
         if not pf < 1.0:
             fails.append(('feasibility', 'primal_feasibility of the returned marginals is %.4g, the estimator enforces < 1' % pf))
+        # the same quantity recomputed by the harness (mean L1 disagreement over the parent -> child edges of the region graph, by name)
+        errs = []
+        for r in model.cliques:
+            for c_ in model.children[r]:
+                a_ = O.marginal(np.asarray(model.marginals[r].values, dtype=float), list(model.marginals[r].domain.attrs), list(model.marginals[c_].domain.attrs))
+                errs.append(float(np.abs(a_ - np.asarray(model.marginals[c_].values, dtype=float)).sum()))
+        own = float(np.mean(errs)) if errs else 0.0
+        info['own_feasibility'] = own
+        if not own < 1.0:
+            fails.append(('feasibility', 'mean parent/child disagreement of the returned marginals is %.4g (recomputed by the harness; primal_feasibility reports %.4g), the estimator enforces < 1' % (own, pf)))
         for (a, ta), (b, tb) in itertools.combinations(tables.items(), 2):
             sh = tuple(x for x in a if x in b)
             if sh and set(a) != set(b):
@@ -131,8 +141,44 @@ def run_one(sname, orc, noise, iters, totmode, seed, T0=40.0):
     return struct, fails, info
 
 
+def run_list_history(orc, seed):
+    """one engine; the SAME list object is passed again after the caller appended a measurement to it; the result must be
+    what a fresh engine returns for the final list (disjoint cliques: also the certified optimum)"""
+    from mbi import Domain, LocalInference
+    struct = STRUCTS['disjoint-singles-pair']
+    prob = M.Problem(ATTRS, SIZES, struct, 4, 'pos', seed, total=40.0, noise_mult=0.5, kinds=['dense', 'sparse', 'prefix', 'linop'])
+    ms_all = prob.fresh_measurements()
+    eng = LocalInference(Domain(ATTRS, SIZES), iters=300, marginal_oracle=orc)
+    lst = []
+    fails = []
+    for m in ms_all:
+        lst.append(m)
+        with M.quiet():
+            model = eng.estimate(lst, total=40.0)
+    f = 0.0
+    for (Qd, y, s_, cl, kd) in prob.dense:
+        v = np.asarray(model.project(cl).datavector(), dtype=float)
+        r = (Qd @ v - y) / s_
+        f += 0.5 * float(r @ r)
+    pref, fref, gap = prob.reference(40.0)
+    fU = prob.f(prob.uniform(40.0))
+    rng_ = max(fU - fref, 1e-12)
+    if f - fref > 1e-2 * rng_ + 1e-9:
+        fails.append(('history-dependence', 'engine reused with the same (grown) list object: loss %.6g after the last call, certified optimum of the final list %.6g (excess %.3g of the range)' % (f, fref, (f - fref) / rng_)))
+    return fails
+
+
 def run_job(job):
     acc = Acc()
+    if job.get('listhistory'):
+        case = {'listhistory': True, 'oracle': job['oracle'], 'seed': job['seed']}
+        acc.case(case)
+        fails = run_list_history(job['oracle'], job['seed'])
+        acc.outcome('list-history:%s' % ('ok' if not fails else 'FAIL'))
+        for kd, msg in fails:
+            acc.violate(case, {'kind': kd, 'oracle': job['oracle'], 'iters': 300, 'exc': None}, msg)
+        acc.sample(case)
+        return acc
     for iters in job['iters']:
         for totmode in job['totals']:
             # iteration counts <= 5 are where the open finding F11 (final step never validated) manifests; their numeric alphabet is
@@ -162,6 +208,11 @@ def run_job(job):
 
 
 def replay(case):
+    if case.get('listhistory'):
+        fails = run_list_history(case['oracle'], case['seed'])
+        for k, m in fails:
+            print(k, m)
+        return [{'key': {'kind': k}, 'msg': m} for k, m in fails]
     try:
         struct, fails, info = run_one(case['s'], case['oracle'], case['noise'], case['iters'], case['total'], case['seed'], case.get('T', 40.0))
     except Exception as ex:
